@@ -301,7 +301,8 @@ class FilterbankBlock(BaseBlock):
         ValueError
             If there are not enough time samples to dedisperse.
         """
-        delays = self.header.get_dmdelays(dm, ref_freq=ref_freq)
+        # The block may already be dedispersed (self.dm): shift by what is left
+        delays = self.header.get_dmdelays(dm - self.dm, ref_freq=ref_freq)
         if only_valid_samples:
             new_ar = kernels.roll_block_valid(self.data, -delays)
             # The valid region begins after the samples that leading channels lack
@@ -349,7 +350,7 @@ class FilterbankBlock(BaseBlock):
             DM-time transform block.
         """
         dm_arr = dm + np.linspace(-dm, dm, dmsteps)
-        dm_delays = self.header.get_dmdelays(dm_arr, ref_freq=ref_freq)
+        dm_delays = self.header.get_dmdelays(dm_arr - self.dm, ref_freq=ref_freq)
         if only_valid_samples:
             new_ar = kernels.dmt_block_valid(self.data, -dm_delays)
             # The valid region begins after the samples that leading channels lack
